@@ -38,6 +38,10 @@
 //! `fspanfacts` → `Generated/FSpanFacts.lean`: the constants of `unescape_f_string_part`'s scan (`piece_start`)
 //! and every arithmetic expression on byte positions in the three `unescape_*` functions (`c06_parse.rs`, section C).
 //!
+//! `msgops` → `Generated/MsgOps.lean`: every operation (method call, macro, call, index, arithmetic, loop) in the
+//! functions that build the MESSAGE of a parse error (`src/parser/error.rs`, `Display for Token`), and what each
+//! constructor of `ParseError` stores from its `impl Display` parameters (classified in `Model/ReportMsgBase.lean`).
+//!
 //! `tclistops` → `Generated/TcListOps.lean`: every operation of the type checker
 //! that is partial in the length of a list, with the evidence that the list is
 //! long enough; see `c06_tclists.rs`.
@@ -58,6 +62,7 @@ pub const TARGETS: &[Target] = &[
     ("parsefacts", "ParseFacts", c06_parse::parsefacts as Gen),
     ("fspanfacts", "FSpanFacts", c06_parse::fspanfacts as Gen),
     ("tclistops", "TcListOps", c06_tclists::tclistops as Gen),
+    ("msgops", "MsgOps", msgops as Gen),
 ];
 
 fn txt(t: &impl ToTokens) -> String {
@@ -1025,4 +1030,454 @@ pub fn reportslices(repo: &Path) -> Result<String, String> {
         all.join(",\n   ")
     ));
     Ok(out)
+}
+
+// ------------------------------------------------------------ msgops
+
+/// the files that build the MESSAGE of a parse error: the constructors of
+/// `ParseError`, `label`, `hint`, the `Display` impls, and `Display for Token`
+/// (the text of the offending token as it is quoted)
+const MSG_FILES: &[&str] = &["src/parser/error.rs", "src/parser/token.rs"];
+
+/// the methods `Model/ReportMsgBase.lean` (`Meth`) has a constructor `k_<name>` for
+const MSG_METHODS: &[&str] = &[
+    "to_string", "into", "clone", "to_owned", "as_str", "as_ref", "write_str", "write_fmt", "fmt", "len", "is_empty",
+    "chars", "char_indices", "bytes", "count", "push", "push_str", "iter", "map", "filter", "collect", "join",
+    "starts_with", "ends_with", "contains", "trim", "get", "first", "last", "next", "take", "skip", "rev", "pop",
+    "find", "lines", "is_some", "is_none", "ok", "unwrap_or", "unwrap_or_default", "unwrap_or_else",
+    "is_char_boundary", "unwrap", "expect", "unwrap_err", "expect_err", "truncate", "split_at", "split_at_mut",
+    "drain", "split_off", "insert", "insert_str", "replace_range", "remove", "swap_remove", "repeat", "step_by",
+    "chunks", "copy_from_slice", "get_unchecked", "get_unchecked_mut", "slice_unchecked", "unwrap_unchecked",
+];
+
+/// the macros `Mac` has a constructor `m_<name>` for
+const MSG_MACROS: &[&str] = &[
+    "format", "write", "writeln", "panic", "unreachable", "todo", "unimplemented", "assert", "assert_eq", "assert_ne",
+    "debug_assert", "debug_assert_eq", "debug_assert_ne",
+];
+
+fn msg_meth(name: &str) -> String {
+    if MSG_METHODS.contains(&name) {
+        format!(".k_{name}")
+    } else {
+        format!("(.other {})", lean_str(name))
+    }
+}
+
+fn test_or_hook(attrs: &[syn::Attribute]) -> bool {
+    attrs.iter().any(|a| {
+        let t = txt(a);
+        t == "#[cfg(feature=\"verif-hooks\")]" || t == "#[cfg(test)]" || t == "#[test]"
+    })
+}
+
+struct MsgOpFinder {
+    file: &'static str,
+    /// the functions defined in the audited files (a call of one is `localFn`: its body is in the list)
+    local: Vec<String>,
+    cur_fn: Vec<String>,
+    found: Vec<String>,
+    functions: Vec<String>,
+}
+
+impl MsgOpFinder {
+    fn op(&mut self, op: String) {
+        let f = self.cur_fn.last().cloned().unwrap_or_else(|| "-".into());
+        self.found.push(format!("⟨{}, {}, {op}⟩", lean_str(self.file), lean_str(&f)));
+    }
+}
+
+impl<'ast> syn::visit::Visit<'ast> for MsgOpFinder {
+    fn visit_item_fn(&mut self, i: &'ast syn::ItemFn) {
+        if test_or_hook(&i.attrs) {
+            return;
+        }
+        self.cur_fn.push(i.sig.ident.to_string());
+        self.functions.push(i.sig.ident.to_string());
+        syn::visit::visit_item_fn(self, i);
+        self.cur_fn.pop();
+    }
+    fn visit_impl_item_fn(&mut self, i: &'ast syn::ImplItemFn) {
+        if test_or_hook(&i.attrs) {
+            return;
+        }
+        self.cur_fn.push(i.sig.ident.to_string());
+        self.functions.push(i.sig.ident.to_string());
+        syn::visit::visit_impl_item_fn(self, i);
+        self.cur_fn.pop();
+    }
+    fn visit_item_impl(&mut self, i: &'ast syn::ItemImpl) {
+        if test_or_hook(&i.attrs) {
+            return;
+        }
+        syn::visit::visit_item_impl(self, i);
+    }
+    fn visit_item_mod(&mut self, i: &'ast syn::ItemMod) {
+        if test_or_hook(&i.attrs) {
+            return;
+        }
+        syn::visit::visit_item_mod(self, i);
+    }
+    fn visit_expr_method_call(&mut self, e: &'ast syn::ExprMethodCall) {
+        self.op(format!(".meth {}", msg_meth(&e.method.to_string())));
+        syn::visit::visit_expr_method_call(self, e);
+    }
+    fn visit_expr_call(&mut self, e: &'ast syn::ExprCall) {
+        let f = txt(&e.func);
+        let c = match f.as_str() {
+            "Vec::new" => ".c_vec_new".to_string(),
+            "String::new" => ".c_string_new".to_string(),
+            "String::from" => ".c_string_from".to_string(),
+            "Some" => ".c_some".to_string(),
+            "Ok" => ".c_ok".to_string(),
+            "Err" => ".c_err".to_string(),
+            f if self.local.iter().any(|l| l == f || f == format!("Self::{l}")) => {
+                format!("(.localFn {})", lean_str(f))
+            }
+            f => format!("(.other {})", lean_str(f)),
+        };
+        self.op(format!(".call {c}"));
+        syn::visit::visit_expr_call(self, e);
+    }
+    fn visit_expr_index(&mut self, e: &'ast syn::ExprIndex) {
+        let t = txt(e);
+        if t.ends_with("[..]") {
+            self.op(".fullRange".to_string());
+        } else {
+            self.op(format!(".index {}", lean_str(&t)));
+        }
+        syn::visit::visit_expr_index(self, e);
+    }
+    fn visit_expr_binary(&mut self, e: &'ast syn::ExprBinary) {
+        use syn::BinOp::*;
+        match &e.op {
+            Add(_) | Sub(_) | Mul(_) | Div(_) | Rem(_) | Shl(_) | Shr(_) | AddAssign(_) | SubAssign(_)
+            | MulAssign(_) | DivAssign(_) | RemAssign(_) | ShlAssign(_) | ShrAssign(_) => {
+                self.op(format!(".arith {}", lean_str(&txt(&e.op))));
+            }
+            _ => {}
+        }
+        syn::visit::visit_expr_binary(self, e);
+    }
+    fn visit_expr_unary(&mut self, e: &'ast syn::ExprUnary) {
+        if matches!(e.op, syn::UnOp::Neg(_)) {
+            self.op(".arith \"neg\"".to_string());
+        }
+        syn::visit::visit_expr_unary(self, e);
+    }
+    fn visit_expr_while(&mut self, e: &'ast syn::ExprWhile) {
+        self.op(".hazard \"while\"".to_string());
+        syn::visit::visit_expr_while(self, e);
+    }
+    fn visit_expr_loop(&mut self, e: &'ast syn::ExprLoop) {
+        self.op(".hazard \"loop\"".to_string());
+        syn::visit::visit_expr_loop(self, e);
+    }
+    fn visit_expr_unsafe(&mut self, e: &'ast syn::ExprUnsafe) {
+        self.op(".hazard \"unsafe\"".to_string());
+        syn::visit::visit_expr_unsafe(self, e);
+    }
+    fn visit_macro(&mut self, m: &'ast syn::Macro) {
+        let name = m.path.segments.last().map(|s| s.ident.to_string()).unwrap_or_default();
+        match m.parse_body_with(syn::punctuated::Punctuated::<syn::Expr, syn::Token![,]>::parse_terminated) {
+            Ok(args) => {
+                if MSG_MACROS.contains(&name.as_str()) {
+                    self.op(format!(".mac .m_{name}"));
+                } else {
+                    self.op(format!(".mac (.other {})", lean_str(&name)));
+                }
+                for a in &args {
+                    self.visit_expr(a);
+                }
+            }
+            Err(_) => self.op(format!(".mac (.other {})", lean_str(&format!("{name}!(unparsed)")))),
+        }
+    }
+}
+
+/// names of the functions the audited files define (outside hooks and tests)
+fn msg_local_fns(file: &syn::File, out: &mut Vec<String>) {
+    for it in &file.items {
+        match it {
+            syn::Item::Fn(f) if !test_or_hook(&f.attrs) => out.push(f.sig.ident.to_string()),
+            syn::Item::Impl(i) if !test_or_hook(&i.attrs) => {
+                for ii in &i.items {
+                    if let syn::ImplItem::Fn(f) = ii {
+                        if !test_or_hook(&f.attrs) {
+                            out.push(f.sig.ident.to_string());
+                        }
+                    }
+                }
+            }
+            _ => {}
+        }
+    }
+}
+
+/// `param.m1().m2()…` → (param, [m1, m2, …]); anything else → None
+fn msg_chain(e: &syn::Expr, params: &[String]) -> Option<(String, Vec<String>)> {
+    match e {
+        syn::Expr::Path(p) => {
+            let id = p.path.get_ident()?.to_string();
+            params.contains(&id).then(|| (id, vec![]))
+        }
+        syn::Expr::MethodCall(m) if m.args.is_empty() => {
+            let (p, mut c) = msg_chain(&m.receiver, params)?;
+            c.push(m.method.to_string());
+            Some((p, c))
+        }
+        syn::Expr::Paren(p) => msg_chain(&p.expr, params),
+        syn::Expr::Reference(r) => msg_chain(&r.expr, params),
+        _ => None,
+    }
+}
+
+/// the struct literals `ParseErrorKind::X { field: expr, … }` in a constructor's body
+struct KindLiterals<'a> {
+    found: Vec<&'a syn::ExprStruct>,
+}
+impl<'ast> syn::visit::Visit<'ast> for KindLiterals<'ast> {
+    fn visit_expr_struct(&mut self, e: &'ast syn::ExprStruct) {
+        if e.path.segments.first().map(|s| s.ident == "ParseErrorKind").unwrap_or(false) {
+            self.found.push(e);
+        }
+        syn::visit::visit_expr_struct(self, e);
+    }
+}
+
+/// Target `msgops` → `Generated/MsgOps.lean`: every operation in the bodies of the functions that build the message
+/// of a parse error (`MSG_FILES`; method calls, macros, calls, indexing, arithmetic, `while` / `loop` / `unsafe`),
+/// and — for every function of `impl ParseError` that has `impl Display` parameters — what it stores in each field
+/// of the `ParseErrorKind` it builds. The constructors the parser calls with the text of a token must be there.
+pub fn msgops(repo: &Path) -> Result<String, String> {
+    use syn::visit::Visit;
+    let mut files = vec![];
+    let mut local = vec![];
+    for f in MSG_FILES {
+        let file = find::parse(repo, f)?;
+        msg_local_fns(&file, &mut local);
+        files.push((*f, file));
+    }
+    let mut ops = vec![];
+    let mut functions = vec![];
+    for (f, file) in &files {
+        let mut v = MsgOpFinder { file: f, local: local.clone(), cur_fn: vec![], found: vec![], functions: vec![] };
+        v.visit_file(file);
+        ops.extend(v.found);
+        functions.extend(v.functions.into_iter().map(|n| format!("{f}::{n}")));
+    }
+    // the constructors of `ParseError`
+    let mut fields = vec![];
+    let mut ctors = vec![];
+    for it in &files[0].1.items {
+        let syn::Item::Impl(i) = it else { continue };
+        if test_or_hook(&i.attrs) || i.trait_.is_some() || txt(&i.self_ty) != "ParseError" {
+            continue;
+        }
+        for ii in &i.items {
+            let syn::ImplItem::Fn(f) = ii else { continue };
+            if test_or_hook(&f.attrs) {
+                continue;
+            }
+            let mut params = vec![];
+            for a in &f.sig.inputs {
+                if let syn::FnArg::Typed(t) = a {
+                    if txt(&t.ty) == "implDisplay" {
+                        if let syn::Pat::Ident(p) = &*t.pat {
+                            params.push(p.ident.to_string());
+                        } else {
+                            return Err(format!("msgops: parameter pattern of ParseError::{} not understood", f.sig.ident));
+                        }
+                    }
+                }
+            }
+            if params.is_empty() {
+                continue;
+            }
+            let name = f.sig.ident.to_string();
+            let mut lits = KindLiterals { found: vec![] };
+            lits.visit_block(&f.block);
+            let mut used: Vec<String> = vec![];
+            for lit in &lits.found {
+                for fv in &lit.fields {
+                    let field = txt(&fv.member);
+                    let (param, chain) = match msg_chain(&fv.expr, &params) {
+                        Some((p, c)) => {
+                            used.push(p.clone());
+                            (p, c.iter().map(|m| msg_meth(m)).collect::<Vec<_>>())
+                        }
+                        None => ("-".to_string(), vec![format!("(.other {})", lean_str(&txt(&fv.expr)))]),
+                    };
+                    fields.push(format!(
+                        "⟨{}, {}, {}, [{}]⟩",
+                        lean_str(&name),
+                        lean_str(&field),
+                        lean_str(&param),
+                        chain.join(", ")
+                    ));
+                }
+            }
+            // a parameter that reaches the message some other way (a `let`, a helper) is not understood
+            for p in &params {
+                let n = count_ident(&f.block, p);
+                let direct = used.iter().filter(|u| *u == p).count();
+                if n != direct {
+                    fields.push(format!(
+                        "⟨{}, \"-\", {}, [(.other {})]⟩",
+                        lean_str(&name),
+                        lean_str(p),
+                        lean_str(&format!("{p}: used {n} times, {direct} times as a field `{p}.m()..`"))
+                    ));
+                }
+            }
+            ctors.push(name);
+        }
+    }
+    for need in ["expected", "invalid_literal", "custom"] {
+        if !ctors.iter().any(|c| c == need) {
+            return Err(format!("msgops: ParseError::{need} with `impl Display` parameters not found in {}", MSG_FILES[0]));
+        }
+    }
+    if !functions.iter().any(|f| f == "src/parser/token.rs::fmt") {
+        return Err("msgops: `Display for Token` (fn fmt) not found in src/parser/token.rs".into());
+    }
+    let mut out = String::from(
+        "/- GENERATED by /verif/extract (target `msgops`) from src/parser/error.rs, src/parser/token.rs — do not edit. -/\nimport RotoV.Model.ReportMsgBase\nnamespace RotoV.Gen.MsgOps\nopen RotoV.ReportMsg\n\n",
+    );
+    out.push_str(&format!(
+        "/-- every operation in the bodies of the functions of {} (hooks and tests skipped) -/\ndef ops : List Site :=\n  [{}]\n\n",
+        MSG_FILES.join(", "),
+        ops.join(",\n   ")
+    ));
+    out.push_str(&format!("/-- the number of function bodies walked -/\ndef functionCount : Nat := {}\n\n", functions.len()));
+    out.push_str(&format!(
+        "/-- what the constructors of `ParseError` store from their `impl Display` parameters -/\ndef fields : List Field :=\n  [{}]\n\n",
+        fields.join(",\n   ")
+    ));
+    let mut call_args = vec![];
+    for f in MSG_CALLER_FILES {
+        let file = find::parse(repo, f)?;
+        let mut v = MsgCallFinder { file: f, found: vec![] };
+        v.visit_file(&file);
+        call_args.extend(v.found);
+    }
+    out.push_str(&format!(
+        "/-- every text argument of every call of `ParseError::expected` / `invalid_literal` / `custom` in {} -/\ndef callArgs : List CallArg :=\n  [{}]\n\nend RotoV.Gen.MsgOps\n",
+        MSG_CALLER_FILES.join(", "),
+        call_args.join(",\n   ")
+    ));
+    Ok(out)
+}
+
+/// the parser files that call the constructors of `ParseError`
+const MSG_CALLER_FILES: &[&str] =
+    &["src/parser/mod.rs", "src/parser/expr.rs", "src/parser/filter_map.rs", "src/parser/signature.rs"];
+
+/// what a caller hands to a text parameter of a constructor of `ParseError`
+fn msg_arg(e: &syn::Expr) -> String {
+    match e {
+        syn::Expr::Lit(l) if matches!(l.lit, syn::Lit::Str(_)) => ".lit".to_string(),
+        syn::Expr::Path(p) if p.path.get_ident().is_some() => format!(".var {}", lean_str(&txt(p))),
+        syn::Expr::Reference(r) => msg_arg(&r.expr),
+        syn::Expr::Paren(p) => msg_arg(&p.expr),
+        syn::Expr::Macro(m) if m.mac.path.is_ident("format") => {
+            match m.mac.parse_body_with(syn::punctuated::Punctuated::<syn::Expr, syn::Token![,]>::parse_terminated) {
+                Ok(args)
+                    if args.iter().enumerate().all(|(i, a)| match a {
+                        syn::Expr::Lit(l) => i == 0 && matches!(l.lit, syn::Lit::Str(_)),
+                        syn::Expr::Path(p) => i > 0 && p.path.get_ident().is_some(),
+                        _ => false,
+                    }) =>
+                {
+                    ".fmt".to_string()
+                }
+                _ => format!(".other {}", lean_str(&txt(e))),
+            }
+        }
+        _ => format!(".other {}", lean_str(&txt(e))),
+    }
+}
+
+struct MsgCallFinder {
+    file: &'static str,
+    found: Vec<String>,
+}
+
+impl<'ast> syn::visit::Visit<'ast> for MsgCallFinder {
+    fn visit_item_fn(&mut self, i: &'ast syn::ItemFn) {
+        if !test_or_hook(&i.attrs) {
+            syn::visit::visit_item_fn(self, i);
+        }
+    }
+    fn visit_impl_item_fn(&mut self, i: &'ast syn::ImplItemFn) {
+        if !test_or_hook(&i.attrs) {
+            syn::visit::visit_impl_item_fn(self, i);
+        }
+    }
+    fn visit_item_impl(&mut self, i: &'ast syn::ItemImpl) {
+        if !test_or_hook(&i.attrs) {
+            syn::visit::visit_item_impl(self, i);
+        }
+    }
+    fn visit_item_mod(&mut self, i: &'ast syn::ItemMod) {
+        if !test_or_hook(&i.attrs) {
+            syn::visit::visit_item_mod(self, i);
+        }
+    }
+    fn visit_expr_call(&mut self, e: &'ast syn::ExprCall) {
+        let f = txt(&e.func);
+        if let Some(ctor) = f.strip_prefix("ParseError::") {
+            // the last argument is the location (a `Span`, not a text); `escape` takes the escaper's error and a span
+            let texts = match ctor {
+                "expected" | "custom" => 2,
+                "invalid_literal" => 3,
+                "escape" => 0,
+                _ => usize::MAX,
+            };
+            if texts == usize::MAX || (ctor != "escape" && e.args.len() != texts + 1) {
+                self.found.push(format!(
+                    "⟨{}, {}, .other {}⟩",
+                    lean_str(self.file),
+                    lean_str(ctor),
+                    lean_str(&format!("call not understood: {}", txt(e)))
+                ));
+            } else {
+                for a in e.args.iter().take(texts) {
+                    self.found.push(format!("⟨{}, {}, {}⟩", lean_str(self.file), lean_str(ctor), msg_arg(a)));
+                }
+            }
+        }
+        syn::visit::visit_expr_call(self, e);
+    }
+    fn visit_macro(&mut self, m: &'ast syn::Macro) {
+        if let Ok(args) = m.parse_body_with(syn::punctuated::Punctuated::<syn::Expr, syn::Token![,]>::parse_terminated) {
+            for a in &args {
+                self.visit_expr(a);
+            }
+        }
+    }
+}
+
+/// how often the identifier occurs as an expression in the block
+fn count_ident(b: &syn::Block, name: &str) -> usize {
+    use syn::visit::Visit;
+    struct C<'a> {
+        name: &'a str,
+        n: usize,
+    }
+    impl<'ast, 'a> syn::visit::Visit<'ast> for C<'a> {
+        fn visit_expr_path(&mut self, p: &'ast syn::ExprPath) {
+            if p.path.is_ident(self.name) {
+                self.n += 1;
+            }
+        }
+        fn visit_macro(&mut self, m: &'ast syn::Macro) {
+            // format!("{x}") captures are not visible to syn: count textual occurrences of the name
+            let t = m.tokens.to_string();
+            self.n += t.matches(self.name).count();
+        }
+    }
+    let mut c = C { name, n: 0 };
+    c.visit_block(b);
+    c.n
 }
